@@ -794,7 +794,10 @@ def native_check(ci: ContractInfo, g: ConcreteFactory):
 def bounded_search(ci: ContractInfo, kind: str, label: str, n: int, rng):
     """Witness search: random inputs from the contract's own input builder; returns a replay record or None."""
     base = label.split('#')[0]
+    t_end = time.time() + (25.0 if n <= 3000 else 150.0)        # (contracts whose native inputs are whole documents are slow to sample)
     for _ in range(n):
+        if time.time() > t_end:
+            break
         g = ConcreteFactory({}, rng=rng, bound=6)
         try:
             failed = native_check(ci, g)
@@ -855,7 +858,10 @@ def bounded_standin(ci: ContractInfo, n: int, rng):
         from .contract import REGISTRY
         via = REGISTRY.get(getattr(ci.pycls, 'witness_via', '') or '')
         return bounded_standin(via, n, rng) if via is not None else (0, None)
+    t_end = time.time() + (40.0 if n <= 2000 else 240.0)
     for _ in range(n):
+        if time.time() > t_end and ran > 0:
+            break
         g = ConcreteFactory({}, rng=rng, bound=6)
         try:
             failed = native_check(ci, g)
